@@ -438,6 +438,7 @@ def monitor_failure(d, pid):
     v = r[mon] or d["verdict"]
     routing = bool(v) and v[0].startswith("routing ")
     reentrant = bool(v) and v[0].startswith("reentrant ")
+    rawbytes = bool(v) and v[0].startswith("bytes ")
     w = v[0].split() if v else []
     at = int(w[-1]) if w and w[-1].isdigit() and "fail" in w else -1
     op = small[at].split()[0] if 0 <= at < len(small) else "?"
@@ -446,10 +447,12 @@ def monitor_failure(d, pid):
         what = "C06: a reply was delivered to a request other than the one it answers, at step %d (%s)" % (at, small[at] if 0 <= at < len(small) else "?")
     if reentrant:
         what = "%s (with re-entrant callbacks): the observation stream violates the property at step %d (%s)" % (pid, at, small[at] if 0 <= at < len(small) else "?")
+    if rawbytes:
+        what = "C06 (raw bytes, per connection): a Deferred fired with bytes that are no frame completed by this dataReceived in the parse of the bytes THIS connection received, or fired outside a dataReceived, or a stream reaching an over-long prefix was not dropped, at step %d (%s)" % (at, small[at] if 0 <= at < len(small) else "?")
     return {
         "what": what,
         "scenario": {"header": list(header), "events": small, "impl_observations": obs, "verdict": v},
-        "tags": ["%s-%s-%s" % (mon, "misrouted" if routing else ("reentrant" if reentrant else "step"), op)],
+        "tags": ["%s-%s-%s" % (mon, "misrouted" if routing else ("reentrant" if reentrant else ("rawbytes" if rawbytes else "step")), op)],
     }
 
 
@@ -553,7 +556,7 @@ def run(ctx, res):
         "replies in any order, duplicate/unsolicited/short/oversize frames, byte stream cut anywhere, cancel/disconnect/close/updateMetadata/"
         "write-failure interleaved, drops at any point, connect failures and back-off; plus bounded-exhaustive enumeration of the reachable "
         "states with a 19-symbol alphabet over two ids (every transition from every state reachable within the depth). Compared per event: "
-        "observations (strict order) and the internal state (white box). non-trivial (C06) = at least one reply delivered AND one of "
+        "observations (strict order) and the internal state (white box); every recorded trace is also cut into per-connection byte logs by the Lean fold of Afkak/BrokerClientBytes.lean (whole-stream parse per connection, mon-bytes) and those logs are compared with the driver's own record of the bytes each connection's transport was handed. non-trivial (C06) = at least one reply delivered AND one of "
         "{cancel fired, unknown id, partial frame, several replies in one chunk, connection dropped, close with pending, short frame}. "
         "framing: random frame lists cut at random positions (thorough: ALL cut sets of short streams) fed to the real KafkaProtocol / "
         "KafkaBootstrapProtocol, and streams continued after an over-long prefix by a transport that keeps delivering (every packet delivered must be a "
